@@ -46,6 +46,7 @@ var c10Toks = []string{"ukex", "ubtc", "utst", "xeth", "frozen", "ueth"}
 var reShare = regexp.MustCompile(`^v(\d+)/(.+)$`)
 
 type c10 struct {
+	regOften bool // registry edits every ~10 steps instead of every ~50 (slices run inside another check)
 	r      *Rec
 	w      *World
 	ctx    sdk.Context
@@ -1030,6 +1031,40 @@ func (e *c10) periodStrand() {
 	e.obsUndels()
 }
 
+// upsertTok: governance rewrites the staking settings of a registered token through the real tokens keeper (the path of
+// the UpsertTokenInfos proposal): staking switched on / off, another reward cap. The registry's rule - the caps of ALL
+// registered tokens add up to at most 1 - is what bounds the reward split (C10.upsertTok_keeps_capsOk).
+func (e *c10) upsertTok(i int, enabled bool, cap sdk.Dec) {
+	app := e.w.app
+	ti := app.TokensKeeper.GetTokenInfo(e.ctx, c10Toks[i])
+	if ti == nil {
+		return
+	}
+	ti.StakeEnabled, ti.StakeCap = enabled, cap
+	err := withCache(e.ctx, func(c sdk.Context) error { return app.TokensKeeper.UpsertTokenInfo(c, *ti) })
+	en := 0
+	if enabled {
+		en = 1
+	}
+	e.op(fmt.Sprintf("ms upsert-tok %d %d %s %s %s", i, en, ti.StakeMin.String(), cap.String(), ti.FeeRate.String()), c10okErr(err))
+	e.r.Count("upsert-tok:" + c10okErr(err))
+	// the property's view: whatever was accepted, the caps of all registered tokens stay within 100 %
+	total := sdk.ZeroDec()
+	for _, t := range app.TokensKeeper.GetAllTokenInfos(e.ctx) {
+		total = total.Add(t.StakeCap)
+	}
+	if total.GT(sdk.OneDec()) {
+		e.r.Fail("C10/token-registry/stake-caps-above-100-percent", fmt.Sprintf("after UpsertTokenInfo(%s, enabled=%v, cap=%s) [%s] the stake caps of the registered tokens add up to %s: a pool holding all of them splits %s of every reward", c10Toks[i], enabled, cap, c10okErr(err), total, total), e.replay())
+	}
+}
+
+func (e *c10) regEvery() int {
+	if e.regOften {
+		return 10
+	}
+	return 50
+}
+
 func (e *c10) rndStake() sdk.Coins {
 	rng := e.r.Rng
 	cs := sdk.NewCoins()
@@ -1088,6 +1123,32 @@ func (e *c10) episode(n int, ep int) {
 		v := rng.Intn(e.nVal)
 		if i == strandAt {
 			e.periodStrand()
+			continue
+		}
+		if rng.Intn(e.regEvery()) == 0 {
+			// registry edits in the middle of the episode: switch the staking of a token off or on (its cap and the shares in
+			// the pools stay), or move a cap - also to values that only fit if the disabled tokens were left out of the sum
+			ti := rng.Intn(4) // ukex ubtc utst xeth
+			cur := app.TokensKeeper.GetTokenInfo(e.ctx, c10Toks[ti])
+			if cur != nil {
+				switch rng.Intn(3) {
+				case 0:
+					e.upsertTok(ti, !cur.StakeEnabled, cur.StakeCap)
+				case 1:
+					e.upsertTok(ti, true, sdk.MustNewDecFromStr([]string{"0.5", "0.25", "0.1", "0.05", "0.4", "0.75"}[rng.Intn(6)]))
+				default:
+					// the largest cap the ENABLED tokens would leave room for
+					room := sdk.OneDec()
+					for _, t := range app.TokensKeeper.GetAllTokenInfos(e.ctx) {
+						if t.StakeEnabled && t.Denom != c10Toks[ti] {
+							room = room.Sub(t.StakeCap)
+						}
+					}
+					if room.IsPositive() {
+						e.upsertTok(ti, true, room)
+					}
+				}
+			}
 			continue
 		}
 		if rng.Intn(45) == 0 {
@@ -1655,6 +1716,24 @@ func c10Blocks(r *Rec, nBlocks int, seedTag int, nVal int, snapFix int64) {
 		prevProposer = propIdx
 		e.r.Count("block:ok")
 	}
+}
+
+// c10For runs a slice of the staking-pool episodes (delegations, undelegations, rewards, slashes, registry edits) inside the
+// check of another property (C04 restates the pools' solvency theorems): the correspondence with the MultiStake model
+// counts there, oracle failures keep their C10 keys unless aliased.
+func c10For(r *Rec, prop string, alias map[string]string) {
+	r.OnlyProp, r.Alias = prop, alias
+	episodes, n := 8, 110
+	if r.Tier == "thorough" {
+		episodes, n = 60, 160
+	}
+	for ep := 0; ep < episodes; ep++ {
+		e := newC10(r, 7, 3, []string{"0.5", "0.25"}[ep%2])
+		e.regOften = true
+		e.episode(n, 5000+ep)
+	}
+	r.OnlyProp, r.Alias = "", nil
+	r.Mark("ms done")
 }
 
 func runC10(r *Rec) {
